@@ -156,6 +156,7 @@ func cmdCheck(args []string) int {
 		return 2
 	}
 	exploreT := time.Since(t1)
+	dumpProfile()
 
 	// ---- aggregate
 	ev := newEvidence(prop, *tier, seed)
